@@ -57,13 +57,17 @@ def package(seed, ndecls=14):
                 d.text = "const %s uint64 = %d\n" % (d.name, r.randrange(100))
             consts.append(d)
         elif kind == "constgroup":
-            # one Go declaration, several Coq definitions; later members may mention earlier ones and outside constants
+            # one Go declaration, several Coq definitions; members may mention each other (in any order) and outside constants
             members = ["K%d_%d" % (i, j) for j in range(r.randrange(2, 4))]
             d = Decl("constgroup", "CG%d" % i, list(members), level)
             lines = []
+            # (a member may mention members that come LATER in the group: the order of use inside the group is a random permutation)
+            rank = list(range(len(members)))
+            r.shuffle(rank)
             for j, mname in enumerate(members):
-                if j > 0 and r.random() < 0.5:
-                    lines.append("\t%s uint64 = %s + %d" % (mname, members[r.randrange(j)], j))
+                below = [m for m in range(len(members)) if rank[m] < rank[j]]
+                if below and r.random() < 0.5:
+                    lines.append("\t%s uint64 = %s + %d" % (mname, members[r.choice(below)], j))
                 elif consts and r.random() < 0.4:
                     c = r.choice(consts)
                     lines.append("\t%s uint64 = %s + %d" % (mname, c.name, j))
